@@ -118,6 +118,10 @@ D = {
  "C20-f": ("modifier generator's typeID keyed by types.TypeString", "modifier mode; producer and consumer spell one type differently"),
  "C18-f": ("flow/task.go.tmpl: a trailing comment plus `{{- if .FallbackWith -}}` glue TaskPanic / TaskPanicRecovered onto the comment line", "an instrumented flow task whose function or predicate panics"),
  "C10-f": ("scheduler loop: container/list ready list replaced by a slice-backed queue whose PushBack compaction copies into a too-short destination", "a PushBack that finds the 128-entry ready slice exactly full with more jobs queued than dispatched: > 128 jobs whose functions are slower than the enqueue loop"),
+ "C05-f": ("scheduler loop, enqueue arm: a job found invalid at enqueue is resolved on the spot (done, errJobInvalid, not counted in pending) but stays registered as consumer of its unfinished dependencies", "ContinueOnError; a job with >= 2 dependencies enqueued when one has already failed and another is still running: it is dispatched later, pending ends at -1, Wait never returns"),
+ "C06-f": ("Config.New: result channel donec sized min(Concurrency, 64) instead of Concurrency", "Concurrency > 64, fail-fast, a failure while more than 64 other jobs are in their bodies: the workers beyond the 64 slots block forever posting"),
+ "C12-f": ("Wait, ctx.Done() arm: returns s.err when non-nil (reads the loop-owned field without the close(finishedc) edge)", "Wait leaves through ctx.Done() while the loop is alive and a job reports an error around that moment"),
+ "C19-f": ("scheduler loop, enqueue arm: waiting++ for every job that declares dependencies, before the dependency loop", "a non-nil emitter and a job whose dependencies have all finished before it is enqueued, then a tick: Pending != Ready + Waiting + executing, later Waiting > Pending"),
 }
 rows = []
 for sid in sorted(D):
